@@ -41,7 +41,9 @@ type PartSpec struct {
 }
 
 // selected by the statement: the source condition holds, the source is one the server can compile, the journal can be opened
-func matched(ps PartSpec, p Params) bool { return ps.Grp == "a" && !ps.Fail && p.BadSrc == "" }
+func matched(ps PartSpec, p Params) bool {
+	return (ps.Grp == "a" || p.SrcForm == "none") && !ps.Fail && p.BadSrc == ""
+}
 
 type Params struct {
 	SrcForm string `json:"srcform"` // expr | tags
@@ -51,6 +53,15 @@ type Params struct {
 	BefText string `json:"beftext,omitempty"` // the literal used for BEFORE when not the nanosecond integer
 	MaxDb   int64  `json:"maxdb"`
 	BadSrc  string `json:"badsrc,omitempty"` // the source condition is one the parser accepts and the builder refuses: like | func | arity
+	// how the numbers are written (the values above are what they denote): size literals with a unit ("1kB", "0.5KiB", "300B"),
+	// keywords in lower case; SrcForm "none" = no source at all (every partition of the server is selected)
+	MinText   string `json:"mintext,omitempty"`
+	MaxText   string `json:"maxtext,omitempty"`
+	MaxDbText string `json:"maxdbtext,omitempty"`
+	Lower     bool   `json:"lower,omitempty"`
+	// BefRaw: the statement carries BEFORE BefText, which denotes this instant <= 0 (a date before 1970): the code takes
+	// OldestTs <= 0 as "not given" (Before stays -1 for the oracle), the model gets the value
+	BefRaw *int64 `json:"befraw,omitempty"`
 }
 
 type Replay struct {
@@ -60,6 +71,9 @@ type Replay struct {
 	P     *Params    `json:"params,omitempty"` // ... unless given explicitly (corpus cases)
 	Stmt  string     `json:"stmt,omitempty"`   // informational: the statement that was executed
 	W     int        `json:"w,omitempty"`      // race: events the writer appends when deleteJournal asks for the lock
+	// trunc: the real statement is executed a second time on what the first left (a repeated request)
+	Repeat  bool   `json:"repeat,omitempty"`
+	TsClass string `json:"tsclass,omitempty"` // informational: the part of the time axis the events are on
 }
 
 type ChunkObs struct {
@@ -280,12 +294,24 @@ func parseReport(out string) ([]Line, error) {
 }
 
 func stmtOf(vc int, p Params, dry bool) string {
+	s := stmtOfU(vc, p, dry)
+	if p.Lower {
+		// keywords in lower case (the tag values and literals of this harness have no upper-case letters except in size units and quoted texts)
+		for _, kw := range []string{"TRUNCATE", "DRYRUN", "MINSIZE", "MAXSIZE", "BEFORE", "MAXDBSIZE", " AND "} {
+			s = strings.Replace(s, kw, strings.ToLower(kw), -1)
+		}
+	}
+	return s
+}
+
+func stmtOfU(vc int, p Params, dry bool) string {
 	var sb strings.Builder
 	sb.WriteString("TRUNCATE")
 	if dry {
 		sb.WriteString(" DRYRUN")
 	}
 	switch {
+	case p.SrcForm == "none" && p.BadSrc == "":
 	case p.BadSrc == "like":
 		fmt.Fprintf(&sb, " vcase=%d AND grp like \"[\"", vc)
 	case p.BadSrc == "func":
@@ -297,22 +323,27 @@ func stmtOf(vc int, p Params, dry bool) string {
 	default:
 		fmt.Fprintf(&sb, " vcase=%d AND grp=a", vc)
 	}
-	if p.Min >= 0 {
-		fmt.Fprintf(&sb, " MINSIZE %d", p.Min)
+	num := func(kw string, v int64, text string) {
+		if v >= 0 {
+			if text != "" {
+				fmt.Fprintf(&sb, " %s %s", kw, text)
+			} else {
+				fmt.Fprintf(&sb, " %s %d", kw, v)
+			}
+		}
 	}
-	if p.Max >= 0 {
-		fmt.Fprintf(&sb, " MAXSIZE %d", p.Max)
-	}
-	if p.Before >= 0 {
+	num("MINSIZE", p.Min, p.MinText)
+	num("MAXSIZE", p.Max, p.MaxText)
+	if p.BefRaw != nil {
+		fmt.Fprintf(&sb, " BEFORE \"%s\"", p.BefText)
+	} else if p.Before >= 0 {
 		if p.BefText != "" {
 			fmt.Fprintf(&sb, " BEFORE \"%s\"", p.BefText)
 		} else {
 			fmt.Fprintf(&sb, " BEFORE \"%d\"", p.Before)
 		}
 	}
-	if p.MaxDb >= 0 {
-		fmt.Fprintf(&sb, " MAXDBSIZE %d", p.MaxDb)
-	}
+	num("MAXDBSIZE", p.MaxDb, p.MaxDbText)
 	return sb.String()
 }
 
@@ -349,6 +380,9 @@ type outcome struct {
 	readers    []parkedReader
 	p          Params
 	removedAny bool
+	repLines   []Line      // the report of the repeated statement
+	afterRep   []PartObs   // ... and what it left
+	repeated   bool
 	dryErr     string      // error of the DRYRUN statement ("" = answered)
 	realErr    string      // error of the real statement
 	extra      []Violation // findings of the post-run observations (DESCRIBE / SHOW PARTITIONS / RANGE reads)
@@ -376,7 +410,10 @@ func (r *runner) runCase(rp *Replay) (*outcome, error) {
 	if rp.P != nil {
 		o.p = *rp.P
 	} else {
-		o.p = drawParams(NewRng(rp.PSeed), parts, o.before)
+		o.p = drawParams(NewRng(rp.PSeed), parts, o.before, !r.foreign(vc))
+	}
+	if o.p.SrcForm == "none" && r.foreign(vc) {
+		o.p.SrcForm = "expr" // the server holds partitions of other cases (held ones that could not be cleaned up)
 	}
 	// parked readers
 	for i, ps := range parts {
@@ -487,6 +524,13 @@ func (r *runner) runCase(rp *Replay) (*outcome, error) {
 			}
 		}
 	}
+	// the same request once more, on what the first one left
+	if rp.Repeat && o.p.BadSrc == "" && o.execErr == "" {
+		if o.repLines, o.afterRep, err = run(false); err != nil {
+			return nil, err
+		}
+		o.repeated = true
+	}
 	// leave nothing behind on the shared server
 	r.quiesce()
 	r.srv.Exec(fmt.Sprintf("TRUNCATE vcase=%d MAXDBSIZE 0", vc))
@@ -502,7 +546,9 @@ func gChunk(c ChunkObs) string {
 // gPartP: the partition as the statement with parameters p sees it (p_match: the source condition holds AND the source
 // compiles AND the journal can be opened -- the visitor of Service.Truncate is not called for it / returns at once)
 func gPartP(i int, ps PartSpec, po PartObs, p Params) string {
-	if !matched(ps, p) {
+	if matched(ps, p) {
+		ps.Grp = "a"
+	} else {
 		ps.Grp = "b"
 	}
 	return gPart(i, ps, po)
@@ -530,6 +576,9 @@ func gParams(p Params, dry bool) string {
 	}
 	if p.Before >= 0 {
 		bf = p.Before
+	}
+	if p.BefRaw != nil {
+		bf = *p.BefRaw
 	}
 	db := "18446744073709551615%N"
 	if p.MaxDb >= 0 {
@@ -740,6 +789,19 @@ func mkCases(r *runner, j job) ([]Case, error) {
 	if o.p.BadSrc != "" {
 		tags = append(tags, "bad-source:"+o.p.BadSrc)
 	}
+	tags = append(tags, "source-form:"+o.p.SrcForm)
+	if rp.TsClass != "" {
+		tags = append(tags, "timestamps:"+rp.TsClass)
+	}
+	if o.p.MinText+o.p.MaxText+o.p.MaxDbText != "" {
+		tags = append(tags, "size-literal-with-unit")
+	}
+	if o.p.Lower {
+		tags = append(tags, "keywords-lower-case")
+	}
+	if o.p.BefRaw != nil {
+		tags = append(tags, "before:instant-not-after-1970")
+	}
 	tags = append(tags, o.post...)
 	tags = append(tags, fmt.Sprintf("chunks-removed:%d", minInt(nch, 6)), fmt.Sprintf("partitions:%d", len(rp.Parts)), fmt.Sprintf("readers:%d", len(o.readers)))
 	st := gState(rp.Parts, o.before, o.p)
@@ -767,7 +829,45 @@ func mkCases(r *runner, j job) ([]Case, error) {
 		Oracle:     viol,
 		Key:        "real|" + sig,
 	}
-	return []Case{dry, real}, nil
+	cases := []Case{dry, real}
+	if o.repeated {
+		// the repeated request sees what the first one left: the partitions that still exist, with the same holds
+		var it []string
+		var aft []PartObs
+		for i := range rp.Parts {
+			if o.afterReal[i].Exists {
+				it = append(it, gPartP(i, rp.Parts[i], o.afterReal[i], o.p))
+				aft = append(aft, o.afterRep[i])
+			}
+		}
+		rep := Case{
+			Coq:        GApp("KTrunc", gParams(o.p, false), GList(it), gLines(o.repLines), gAfter(aft), "[]"),
+			Replay:     rp,
+			NonTrivial: nontriv,
+			Stream:     j.stream + "-repeat",
+			Key:        "rep|" + sig,
+		}
+		// a second identical request finds nothing to do: the guards that stopped the first one still hold
+		// (a held partition that was emptied is still held; MAXDBSIZE is already met)
+		for i := range rp.Parts {
+			if real.Oracle == nil && !sameObs(o.afterReal[i], o.afterRep[i]) {
+				rep.Oracle = &Violation{Class: "repeated-statement-removes-more", Detail: fmt.Sprintf("%s executed a second time changed partition %d again", o.stmt, i)}
+			}
+		}
+		if real.Oracle == nil && rep.Oracle == nil && len(o.repLines) > 0 {
+			held := false
+			for _, l := range o.repLines {
+				if l.Key < len(rp.Parts) && rp.Parts[l.Key].Hold == 1 {
+					held = true // an emptied partition that is still held is looked at (and not reported) again; others must not appear
+				}
+			}
+			if !held {
+				rep.Oracle = &Violation{Class: "repeated-statement-reports-again", Detail: fmt.Sprintf("%s executed a second time reports %d partition(s) although nothing is left to do", o.stmt, len(o.repLines))}
+			}
+		}
+		cases = append(cases, rep)
+	}
+	return cases, nil
 }
 
 func minInt(a, b int) int {
